@@ -11,7 +11,7 @@
 -/
 import PdsVerif.DriverLoop
 import PdsVerif.Model.Post
-open PdsVerif PdsVerif.Model PdsVerif.Model.Post
+open PdsVerif PdsVerif.Model PdsVerif.Model.Tensor PdsVerif.Model.Post
 
 instance : Inhabited Rat := ⟨0⟩
 
